@@ -154,3 +154,44 @@ Definition get4 (buf : list Z) (ip : Z) : px4 := (rd buf ip, rd buf (ip + 1), rd
 Fixpoint get4_cols (buf : list Z) (ip : Z) (n : nat) : list px4 :=
   match n with O => [] | S k => get4 buf ip :: get4_cols buf (ip + 4) k end.
 Definition unpack4 (buf : list Z) (ptrs : list Z) (w : nat) : list (list px4) := map (fun ip => get4_cols buf ip w) ptrs.
+
+(* ------------------------------------------------------------------ jdmrg565.c: merged upsampling to RGB565 *)
+(* WRITE_TWO_PIXELS of jdmerge.c: two INT16 stores (no alignment requirement, hence no alignment branch) *)
+Definition write_two (be : bool) (buf : list Z) (op packed : Z) : list Z :=
+  if be then store16 be (store16 be buf (op + 2) packed) op (Z.shiftr packed 16)
+  else store16 be (store16 be buf op packed) (op + 2) (Z.shiftr packed 16).
+(* r,g,b of one output pixel from its luma and the chroma terms shared by the pair *)
+Definition mpx565 (dith : bool) (d y : Z) (ch : px3) : px3 :=
+  let p := prec8 in
+  if dith then (rl p (dith_r (y + c0 ch) d), rl p (dith_g (y + c1 ch) d), rl p (dith_b (y + c2 ch) d))
+  else (rl p (y + c0 ch), rl p (y + c1 ch), rl p (y + c2 ch)).
+Fixpoint m565_pairs (be dith : bool) (n : nat) (ys cbs crs : list Z) (buf : list Z) (op d : Z)
+  : list Z * list Z * list Z * list Z * Z * Z :=
+  match n with
+  | O => (ys, cbs, crs, buf, op, d)
+  | S k =>
+      let ch := chroma prec8 true (hd 0 cbs) (hd 0 crs) in
+      let v1 := pk be (mpx565 dith d (hd 0 ys) ch) in
+      let d1 := if dith then dither_rot d else d in
+      let v2 := pk be (mpx565 dith d1 (hd 0 (tl ys)) ch) in
+      let d2 := if dith then dither_rot d1 else d1 in
+      m565_pairs be dith k (tl (tl ys)) (tl cbs) (tl crs) (write_two be buf op (pack_two be v1 v2)) (op + 4) d2
+  end.
+(* h2v1_merged_upsample_565[D]_internal for one output row of width w *)
+Definition m565_row (be dith : bool) (w : Z) (ys cbs crs : list Z) (buf : list Z) (op d : Z) : list Z :=
+  let '(ys', cbs', crs', buf', op', d') := m565_pairs be dith (Z.to_nat (Z.shiftr w 1)) ys cbs crs buf op d in
+  if Z.odd w then
+    store16 be buf' op' (pk be (mpx565 dith d' (hd 0 ys') (chroma prec8 true (hd 0 cbs') (hd 0 crs'))))
+  else buf'.
+(* rows of one image; row r is produced while output_scanline = scan0 + r (h2v2: the two rows of a group use
+   dither_matrix rows output_scanline and output_scanline + 1, i.e. again scan0 + r); crs/cbs already per output row *)
+Fixpoint m565_rows (be dith : bool) (w scan : Z) (ys cbs crs : list (list Z)) (buf : list Z) (ptrs : list Z) : list Z :=
+  match ys, cbs, crs, ptrs with
+  | y :: ty, cb :: tcb, cr :: tcr, op :: tp =>
+      m565_rows be dith w (scan + 1) ty tcb tcr
+        (m565_row be dith w y cb cr buf op (if dith then dither_row scan else 0)) tp
+  | _, _, _, _ => buf
+  end.
+Definition merged565 (be dith v2 : bool) (w scan0 : Z) (ys cbs crs : list (list Z)) (buf : list Z) (ptrs : list Z) : list Z :=
+  if v2 then m565_rows be dith w scan0 ys (dup_rows cbs) (dup_rows crs) buf ptrs
+  else m565_rows be dith w scan0 ys cbs crs buf ptrs.
